@@ -35,6 +35,8 @@ def check(ctx, report):
     report.rule('C10.R3', 'width read == width written for factories, vectors and fallback classes')
     report.rule('C10.R4', 'unknown items are appended or rejected, never dropped; invalid-type wrapper keeps the code')
     report.rule('C10.R5', 'enum typed integer fields: parse width == compose width')
+    report.rule('C10.R6', 'GREASE classification equals RFC 8701 (tables and decision)')
+    grease_classification(ctx, report, 'C10.R6')
     # ---- R1
     n_enum = 0
     for c in model.all_classes:
@@ -313,3 +315,95 @@ def preserve(ctx, report):
                 src = ast.unparse(n.value)
                 if not (src.endswith('.value.code')):
                     report.add('C10.R4', c.construct + '.__attrs_post_init__@code', 'stored code rewritten by %s' % src)
+
+
+# ---- GREASE classification (shared with C15) -----------------------------------------------------------
+
+RFC8701_ONE = frozenset(0x0b + 0x1f * i for i in range(8))                 # 0x0b, 0x2a, ..., 0xe4
+RFC8701_TWO = frozenset((n << 12) | (0xa << 8) | (n << 4) | 0xa for n in range(16))      # 0x0a0a, 0x1a1a, ..., 0xfafa
+
+
+def grease_classification(ctx, report, rule):
+    """an integer code is classified GREASE exactly when RFC 8701 reserves it: the GREASE tables equal the RFC sets and
+    the wrapper class decides by table membership; a decision coded as arithmetic is tabulated over every code of the
+    width (sa.miniexec) and compared with the RFC set"""
+    import ast
+    from ..miniexec import Evaluator, Unsupported
+    from ..paths import paths
+    model = ctx.model
+    for name, want in (('TlsGreaseOneByte', RFC8701_ONE), ('TlsGreaseTwoByte', RFC8701_TWO)):
+        c = model.try_cls(name)
+        report.count(rule)
+        if c is None or c.enum_members is None:
+            report.error('%s: GREASE table %s vanished' % (rule, name))
+            return
+        got = frozenset(v.get('code') for v in c.enum_members.values())
+        if got != want:
+            report.add(rule, 'cryptodatahub:%s@codes' % name, 'GREASE table differs from RFC 8701: missing %s, extra %s' % (
+                sorted(hex(x) for x in want - got), sorted(hex(x) for x in got - want)))
+    base = model.try_cls('TlsInvalidTypeBase')
+    f = base.methods.get('__attrs_post_init__') if base is not None else None
+    if f is None:
+        report.error('%s: TlsInvalidTypeBase.__attrs_post_init__ vanished' % rule)
+        return
+    report.touch(f)
+    sites = 0
+    for stmts, how in paths(f.node.body):
+        marks = [i for i, st in enumerate(stmts) if isinstance(st, ast.Assign) and ast.unparse(st.value).endswith('.GREASE')]
+        for i in marks:
+            sites += 1
+            report.count(rule)
+            before = stmts[:i + 1]
+            tests = [(t[1], t[2]) for t in before if isinstance(t, tuple) and t[0] == 'test']
+            text = [ast.unparse(t) for t, taken in tests if taken]
+            if any(x.replace(' ', '') == 'isinstance(self.code,self.get_grease_enum())' for x in text):
+                continue
+            lookups = [st for st in before if not isinstance(st, tuple) and 'get_grease_enum().from_code(self.code)' in ast.unparse(st)]
+            if lookups and not any(isinstance(t, tuple) and t[0] == 'except' for t in before[before.index(lookups[-1]):]):
+                continue
+            # arithmetic decision: tabulate it
+            positive = [t for t, taken in tests if taken and 'code' in ast.unparse(t)]
+            if not positive:
+                report.add(rule, f.construct + '@grease-decision', 'a code is classified GREASE without consulting the GREASE table')
+                continue
+            test = positive[-1]
+            for sub, want, width in ((model.try_cls('TlsInvalidTypeOneByte'), RFC8701_ONE, 1), (model.try_cls('TlsInvalidTypeTwoByte'), RFC8701_TWO, 2)):
+                if sub is None:
+                    continue
+                wrong = tabulate_decision(sub, test, width, want, Evaluator, Unsupported)
+                if isinstance(wrong, str):
+                    report.error('%s: the GREASE decision of %s is neither a table lookup nor tabulable arithmetic: %s' % (rule, sub.name, wrong))
+                    return
+                if wrong:
+                    report.add(rule, '%s@grease-decision' % sub.construct,
+                               '%d of the %d codes are classified differently from RFC 8701, e.g. %s is %s' % (
+                                   len(wrong), 256 ** width, hex(wrong[0][0]), 'taken for GREASE' if wrong[0][1] else 'not recognised as GREASE'))
+    if not sites:
+        report.add(rule, f.construct + '@grease-decision', 'no path classifies a code as GREASE')
+
+
+def tabulate_decision(cls, test, width, want, Evaluator, Unsupported):
+    """evaluate ``test`` (an expression over self.code and classmethods of ``cls``) for every code of the width"""
+    import ast
+    wrong = []
+
+    def hook(n, ev):
+        f = n.func
+        if isinstance(f, ast.Attribute) and isinstance(f.value, ast.Name) and f.value.id in ('self', 'cls'):
+            m = cls.resolve(f.attr)
+            if m is None:
+                raise Unsupported('unknown method %s' % f.attr)
+            params = [a.arg for a in m.node.args.args][1:]
+            args = [ev.ev(a) for a in n.args]
+            sub = Evaluator(dict(zip(params, args)), hook, ev.name_hook)
+            return sub.function(m.node)
+        return NotImplemented
+    try:
+        for code in range(256 ** width):
+            ev = Evaluator({}, hook, lambda name, code=code: code if name == 'self.code' else (_ for _ in ()).throw(Unsupported('free name ' + name)))
+            got = bool(ev.ev(test))
+            if got != (code in want):
+                wrong.append((code, got))
+    except Unsupported as e:
+        return str(e)
+    return wrong
